@@ -87,14 +87,20 @@ def moveChk (g i pos : Nat) (pos' : Option Nat) : List ChkRec → List ChkRec
       | none => rs
     else r :: moveChk g i pos pos' rs
 
+/-- program order of one goroutine inside `checkIfStopComplete`: (position before, position after; `none` = left).
+    0 pending, 1 fast path passed, 2 lock held, 3 flag read, 4 ctrl read, 5 workers read, 6 tasks read,
+    7 microtasks read, 8 CAS won, 9 done (about to unlock). -/
 def checkPos : Act → Option (Nat × Option Nat)
-  | .cFlag true => some (0, some 1) | .cFlag false => some (0, none)
-  | .cCtrl true => some (1, some 2) | .cCtrl false => some (1, none)
-  | .cW true => some (2, some 3) | .cW false => some (2, none)
-  | .cT true => some (3, some 4) | .cT false => some (3, none)
-  | .cM true => some (4, some 5) | .cM false => some (4, none)
-  | .cCas true => some (5, some 6) | .cCas false => some (5, none)
-  | .cClose => some (6, none)
+  | .cFast true => some (0, some 1) | .cFast false => some (0, none)
+  | .cLock => some (1, some 2)
+  | .cFlag true => some (2, some 3) | .cFlag false => some (2, some 9)
+  | .cCtrl true => some (3, some 4) | .cCtrl false => some (3, some 9)
+  | .cW true => some (4, some 5) | .cW false => some (4, some 9)
+  | .cT true => some (5, some 6) | .cT false => some (5, some 9)
+  | .cM true => some (6, some 7) | .cM false => some (6, some 9)
+  | .cCas true => some (7, some 8) | .cCas false => some (7, some 9)
+  | .cClose => some (8, some 9)
+  | .cUnlock => some (9, none)
   | _ => none
 
 def modFlag (S : Sys) (i : Nat) : Nat := (S.mods.getD i PB.StopProto.init).flag
@@ -148,6 +154,9 @@ def doEvent (d : DS) (i : Nat) (act : String) (args : List String) (g : Nat) : E
       | "sReport", _ => some .sReport
       | "workEnter", c :: _ => (parseBool c).map .workEnter
       | "gate", c :: _ => (parseBool c).map .gate
+      | "cFast", c :: _ => (parseBool c).map .cFast
+      | "cLock", _ => some .cLock
+      | "cUnlock", _ => some .cUnlock
       | "cFlag", c :: _ => (parseBool c).map .cFlag
       | "cCtrl", c :: _ => (parseBool c).map .cCtrl
       | "cW", c :: _ => (parseBool c).map .cW
